@@ -182,6 +182,26 @@ def make_servicer(url, recycle='never', policy_factory=None):
 
 
 BACKENDS = ('ram', 'sqlmem', 'sqlfile')
+DEPLOYMENTS = ('local', 'grpc', 'split')
+_servers = []
+
+
+def make_deployment(deployment, url, recycle='never', policy_factory=None):
+  """Returns (servicer, api): api is what RPCs are sent to (the servicer itself, or a gRPC stub).
+
+  local: in-process servicer with an in-process PythiaServicer;
+  grpc:  DefaultVizierServer (gRPC, Pythia in-process with the server);
+  split: DistributedPythiaVizierServer (Pythia behind its own gRPC server).
+  """
+  if deployment == 'local':
+    svc = make_servicer(url, recycle, policy_factory)
+    return svc, svc
+  from vizier._src.service import vizier_server
+  period = datetime.timedelta(days=1) if recycle == 'never' else datetime.timedelta(seconds=0)
+  cls = vizier_server.DefaultVizierServer if deployment == 'grpc' else vizier_server.DistributedPythiaVizierServer
+  server = cls(database_url=url, policy_factory=policy_factory or ScriptedFactory(), early_stop_recycle_period=period)
+  _servers.append(server)   # keep alive
+  return server._servicer, server.stub  # pylint: disable=protected-access
 
 
 def backend_url(backend, scratch=None):
